@@ -111,7 +111,13 @@ def race_phase(run, tier, wd):
         rec["race"] = "DATA RACE" in report
         rec["report"] = report[:1500] if rec["race"] else ""
         recs.append(rec)
-    lines = [{k: v for k, v in r.items() if k != "report"} for r in recs]
+    leaked = max([r.get("inflight", 0) for r in recs] + [0])
+    run.cov["scanner_calls_in_flight_when_run_returned"] = leaked
+    if leaked:
+        vlib.log("DRIFT: Run returned while %d scanner call(s) were still in flight (ScanPhase.tla joins the scan phase before returning); "
+                 "a verdict needs the race detector's report on what the caller does next" % leaked)
+        run.cov["model_binding"] = "drift"
+    lines = [{k: v for k, v in r.items() if k not in ("report", "inflight")} for r in recs]
     vlib.write_ndjson(os.path.join(rd, "rt.ndjson"), lines)
     vlib.stage_specs(rd, ["TraceScan.tla"])
     # Verdicts: a reported race, or a wrong outcome (Run succeeding although a scanner failed, Close not returning).  That the
